@@ -61,8 +61,12 @@ type c10Val struct {
 	Pieces []c10Piece
 	Fields map[*types.Var]c10Val
 	Dyn    types.Type
-	Tag    string // opaque sort key "elem|accessor" (order decided by c10Eval.rel)
-	Len    bool   // the integer is the length of a slice (arity bookkeeping)
+	Keys   []c10Val      // c10VMap: constant keys, values in Args
+	Lit    *ast.FuncLit  // c10VFunc
+	Fn     *ast.FuncDecl // c10VFunc: a named package-level function used as a value
+	Cap    c10Env        // c10VFunc: environment at the literal
+	Tag    string        // opaque sort key "elem|accessor" (order decided by c10Eval.rel)
+	Len    bool          // the integer is the length of a slice (arity bookkeeping)
 	Why    string
 }
 
@@ -343,8 +347,11 @@ type c10Eval struct {
 	Inlined   int                   // number of callee bodies interpreted
 	Exprs     int                   // number of expression nodes folded
 
-	pan  string   // set when the expression being evaluated panics (index out of range, failed assertion)
-	fork *c10Fork // non-nil while a statement-level evaluation explores the outcomes of inlined callees
+	pan      string                    // set when the expression being evaluated panics (index out of range, failed assertion)
+	tables   map[types.Object]ast.Expr // read-only package-level tables (c10_interp_lit.go)
+	litStack []*ast.FuncLit            // function literals being interpreted
+	sorts    []c10SortEvent            // calls of package sort reached (c10_interp_sort.go)
+	fork     *c10Fork                  // non-nil while a statement-level evaluation explores the outcomes of inlined callees
 
 	// scenario bookkeeping (reset by the rules between runs)
 	rel        func(a, b string) int // order of two tagged keys: -1, 0, +1; 2 = unknown
@@ -495,6 +502,20 @@ func (ev *c10Eval) zeroOf(t types.Type) c10Val {
 		return c10Val{K: c10VNil}
 	case *types.Slice:
 		return c10SliceVal(nil)
+	case *types.Array:
+		if u.Len() <= 4096 {
+			out := c10Val{K: c10VSlice, Args: make([]c10Val, u.Len())}
+			for i := range out.Args {
+				out.Args[i] = ev.zeroOf(u.Elem())
+			}
+			return out
+		}
+	case *types.Struct:
+		out := c10Val{K: c10VStruct, Fields: map[*types.Var]c10Val{}}
+		for i := 0; i < u.NumFields(); i++ {
+			out.Fields[u.Field(i)] = ev.zeroOf(u.Field(i).Type())
+		}
+		return out
 	case *types.Basic:
 		if u.Info()&types.IsBoolean != 0 {
 			return c10BoolVal(false)
